@@ -195,3 +195,50 @@ def _real(spec, model):
         if r['name'] == spec['name']:
             return {'confirmed': not r['ok'], 'observed': r['detail'], 'expected': 'the cumulative curve ends at the volume adsorbed at the highest pressure used'}
     return {'confirmed': False, 'error': 'case not found'}
+
+
+def steep_step_cases():
+    """a near-vertical condensation step resolved by two points a few 1e-6 apart in p/p0 (a strictly increasing grid): the volume
+    adsorbed across it is in the distribution -- distribution x width increment equals the pore volume of every bin, and with a
+    zero-thickness layer the single step is the single peak, at the Kelvin width of the step"""
+    import warnings
+    import pygaps
+    import pygaps.characterisation as pgc
+    pygaps.logger.disabled = True
+    p = numpy.array([0.2, 0.3, 0.39, 0.4, 0.400002, 0.41, 0.5, 0.6, 0.7])
+    v = numpy.array([0.1, 0.1, 0.1, 0.1, 0.45, 0.45, 0.45, 0.45, 0.45])
+    iso = pygaps.PointIsotherm(pressure=list(p), loading=list(v), material='pgv_c16', adsorbate='nitrogen', temperature=77.355, pressure_mode='relative',
+                               pressure_unit=None, loading_basis='volume_liquid', loading_unit='cm3', material_basis='mass', material_unit='g', temperature_unit='K')
+    for method in ('pygaps-DH', 'BJH', 'DH'):
+        for tm in ('zero thickness', 'Harkins/Jura'):
+            name = f"steep_step|{method}|{tm}"
+            try:
+                with warnings.catch_warnings():
+                    warnings.simplefilter('ignore')
+                    r = pgc.psd_mesoporous(iso, psd_model=method, branch='ads', thickness_model=tm, p_limits=(0.1, 0.9))
+                w = numpy.asarray(r['pore_widths'], dtype=float)
+                d = numpy.asarray(r['pore_distribution'], dtype=float)
+                cum = numpy.asarray(r['pore_volume_cumulative'], dtype=float)
+                vols = numpy.asarray(r['pore_volumes'], dtype=float)
+                probs = []
+                # reported widths belong to the lower pressure of each bin: bin k spans widths w[k] .. w[k+1]
+                dw = numpy.diff(w)
+                recon = d[:-1] * dw
+                if not numpy.allclose(recon, vols[:-1], rtol=1e-6, atol=1e-12):
+                    k = int(numpy.argmax(numpy.abs(recon - vols[:-1])))
+                    probs.append(f"bin {k}: distribution x width increment = {recon[k]:.6g}, pore volume = {vols[k]:.6g} (width increment {dw[k]:.3g} nm)")
+                if tm == 'zero thickness':
+                    big = numpy.flatnonzero(numpy.abs(d) > 0)
+                    if len(big) != 1 or not numpy.isclose(vols[big[0]], 0.35, rtol=1e-6):
+                        probs.append(f"non-zero distribution entries at {list(big)}, expected exactly one, carrying the step of 0.35")
+            except Exception as exc:
+                probs = [f"{type(exc).__name__}: {exc}"[:160]]
+            yield {'name': name, 'ok': not probs, 'detail': '; '.join(probs[:2])}
+
+
+@replayer('c16.steep')
+def _steep(spec, model):
+    for r in steep_step_cases():
+        if r['name'] == spec['name']:
+            return {'confirmed': not r['ok'], 'observed': r['detail'], 'expected': 'distribution x width increment == pore volume in every bin'}
+    return {'confirmed': False, 'error': 'case not found'}
